@@ -39,7 +39,11 @@ _NL: /(\\r?\\n[\\t ]*)+/
 %ignore / +/
 '''
 AMBIG = '''start: e
-e: e "+" e | e "*" e | NAME | "(" e ")"
+?e: add | mul | n1 | n2 | "(" e ")"
+add.1: e "+" e
+mul.2: e "*" e
+n1.2: NAME
+n2.1: NAME
 NAME: /[a-z]+/
 %ignore " "
 '''
@@ -151,6 +155,10 @@ def do_call(p, call, held=None):
             from lark import Lark
             Lark('start: "x"+\n', parser='lalr').parse('xx')
             Lark(EXPR, parser='lalr').parse('z = 1;')
+            # instances built from the SAME Grammar object with other priority modes (hunted defect 41: compile handed every
+            # instance the grammar's own RuleOptions objects, and priority='invert' / None rewrite them in place)
+            if p.options.parser == 'earley' and getattr(p, 'grammar', None) is not None:
+                Lark(p.grammar, parser='earley', lexer=p.options.lexer, priority='invert').parse('a+b*c')
             return {'other': True}
     except UnexpectedInput as e:
         return O.error_json(e)
